@@ -51,6 +51,14 @@ def one(ctx, data, meta=None, htmls=(False, True)):
     ctx.evaluations += 1; good = True
     parts = src.parts_of(data)
     info = {(path, p.k): p for path, root in parts.items() for p in src.paragraphs(root, path)}
+    # hypothesis of C05_post_part for duplicate_merged_cells=True (this check's setting): no cell continues a vertical merge
+    try:
+        v = ctx.drv.ask({**pk.model_case(data, False, True)[0], 'op': 'valid'})
+        for path, ok in ((v.get('<vfree>') or {}) if isinstance(v, dict) else {}).items():
+            ctx.count('vfree holds for the part (hypothesis of C05_post_part with duplication on: element, style and table lineage of EVERY record)' if ok is True
+                      else 'a cell of the part continues a vertical merge (C05_post_part applies with duplication off only)')
+    except Exception:
+        pass
     for html in htmls:
         case = case_payload(data, html=html, dup=True)
         try: lv = live(data, html)
